@@ -17,6 +17,41 @@ pub enum CommentLocation {
 	BeforeInline,
 }
 
+/// Removes what the non-empty lines of a block comment have in common in front of their text: the
+/// indentation, and the `*` gutter when every line has one (a line may consist of nothing else).
+/// What is left has neither, so the lines come out the same when they are printed and read again.
+fn strip_common_padding(lines: &mut [String]) {
+	fn non_empty(lines: &[String]) -> impl Iterator<Item = &String> {
+		lines.iter().filter(|l| !l.is_empty())
+	}
+	loop {
+		let mut indent = non_empty(lines)
+			.next()
+			.map_or("", |l| &l[..l.len() - l.trim_start().len()]);
+		for line in non_empty(lines) {
+			let common = indent
+				.chars()
+				.zip(line.chars())
+				.take_while(|(a, b)| a == b)
+				.map(|(a, _)| a.len_utf8())
+				.sum();
+			indent = &indent[..common];
+		}
+		let indent = indent.len();
+		let gutter = non_empty(lines).next().is_some()
+			&& non_empty(lines).all(|l| {
+				let mut text = l[indent..].chars();
+				text.next() == Some('*') && text.next().is_none_or(char::is_whitespace)
+			});
+		if indent == 0 && !gutter {
+			break;
+		}
+		for line in lines.iter_mut().filter(|l| !l.is_empty()) {
+			*line = line[indent + usize::from(gutter)..].trim_end().to_string();
+		}
+	}
+}
+
 #[allow(clippy::too_many_lines, clippy::cognitive_complexity)]
 pub fn format_comments(comments: &ChildTrivia, loc: CommentLocation, out: &mut PrintItems) {
 	for c in comments {
@@ -54,20 +89,17 @@ pub fn format_comments(comments: &ChildTrivia, loc: CommentLocation, out: &mut P
 				} else {
 					false
 				};
-				// Is comment starts with text immediatly, i.e /*text
-				let mut immediate_start = true;
 				let mut lines = text
 					.split('\n')
 					.map(|l| l.trim_end().to_string())
-					.skip_while(|l| {
-						if l.is_empty() {
-							immediate_start = false;
-							true
-						} else {
-							false
-						}
-					})
 					.collect::<Vec<_>>();
+				// Is comment starts with text immediatly, i.e /*text
+				// Such text says nothing about the padding of the lines below it
+				let immediate_start = !lines[0].is_empty();
+				strip_common_padding(&mut lines[usize::from(immediate_start)..]);
+				// A line that had nothing but the gutter is empty now
+				let leading_empty = lines.iter().take_while(|l| l.is_empty()).count();
+				lines.drain(..leading_empty);
 				while lines.last().is_some_and(String::is_empty) {
 					lines.pop();
 				}
@@ -86,39 +118,6 @@ pub fn format_comments(comments: &ChildTrivia, loc: CommentLocation, out: &mut P
 						p!(out, sp);
 					}
 				} else if !lines.is_empty() {
-					fn common_ws_prefix<'a>(a: &'a str, b: &str) -> &'a str {
-						let offset = a
-							.bytes()
-							.zip(b.bytes())
-							.take_while(|(a, b)| a == b && (a.is_ascii_whitespace() || *a == b'*'))
-							.count();
-						&a[..offset]
-					}
-					// First line is not empty, extract ws prefix of it
-					let mut common_ws_padding = (if immediate_start && lines.len() > 1 {
-						common_ws_prefix(&lines[1], &lines[1])
-					} else {
-						common_ws_prefix(&lines[0], &lines[0])
-					})
-					.to_string();
-					for line in lines
-						.iter()
-						.skip(if immediate_start { 2 } else { 1 })
-						.filter(|l| !l.is_empty())
-					{
-						common_ws_padding = common_ws_prefix(&common_ws_padding, line).to_string();
-					}
-					for line in lines
-						.iter_mut()
-						.skip(usize::from(immediate_start))
-						.filter(|l| !l.is_empty())
-					{
-						*line = line
-							.strip_prefix(&common_ws_padding)
-							.expect("all non-empty lines start with this padding")
-							.to_string();
-					}
-
 					if matches!(loc, CommentLocation::ItemInline) {
 						p!(out, sp);
 					}
